@@ -251,6 +251,27 @@ void UseExceptionSpecs() {
 
 // Mixed trivially / non-trivially destructible alternatives (the destruction walk must not depend on its neighbours), and
 // mutually convertible scalar alternatives (copy / move must keep the alternative the source holds).
+// an alternative that is itself a UNION type with a user-provided destructor (std::is_class is false for it)
+union UAlt {
+  UAlt() {}
+  UAlt(const UAlt&) {}
+  UAlt(UAlt&&) {}
+  UAlt& operator=(const UAlt&) { return *this; }
+  UAlt& operator=(UAlt&&) { return *this; }
+  ~UAlt() {}
+  int i;
+  float f;
+};
+void UseVariantUnionAlt() {
+  using V = Variant<int, UAlt>;
+  V a; V b{1}; V c{UAlt{}}; V d{c}; V e{std::move(c)}; V f{EmptyVariant{}};
+  a = b; a = d; a = std::move(e); a = 2; a = UAlt{}; a = EmptyVariant{};
+  const UAlt cu; a = cu;
+  a.Become(0); a.Become(1); a.Become(2); a.Become(-1);
+  (void)a.index(); (void)a.empty(); (void)a.get<int>(); (void)a.get<UAlt>();
+  a.Visit([](auto&&) {});
+  (void)f;
+}
 void UseVariantMixed() {
   using V = Variant<int, Tracked, bool>;
   V a; V b{1}; V c{Tracked{}}; V d{true}; V e{EmptyVariant{}}; V f{c}; V g{std::move(c)};
@@ -314,6 +335,7 @@ void All() {
   UseLvalueCopies();
   UseExceptionSpecs();
   UseVariantMixed();
+  UseVariantUnionAlt();
   UseVariantConvertible();
   UseNestedVariant();
   UseOptional<std::string, const char*>(std::string{"a"}, "b");
